@@ -646,6 +646,9 @@ def loop_env(lp: Optional[ast.AST]) -> Dict[str, ast.expr]:
 
 # -- helper inlining ("extract method" robustness) ------------------------------------------------------------
 
+KEEP_PUBLIC = {"mkregression_command", "list_command", "init_command", "gentrace_command", "run_command", "get_param_defaults", "compute_pipeline_stats",
+               "parse_args_with_defaults", "jitter_command", "snap_command", "sensitivity_command", "make_assignments", "update_state", "only",
+               "try_make_assignment", "get_pool_with_max_avail_ram", "run_simulator", "main"}
 KEEP_CALLS = {"_reconcile_consumed_ram", "_run_out_of_memory_killer", "_mark_completed", "_parse_row", "_pipeline_to_rows", "_parse_assignments",
               "_parse_suspensions", "_tick_generator", "_sensitivity_task"}
 
@@ -674,8 +677,14 @@ def _inlinable(P: Program, f: Func, c: ast.Call, allow_yield: bool = False) -> O
         target = f.mod.funcs[fn.id]
     if target is None or same_fn(target, f):
         return None
-    if not target.name.startswith("_") or target.name.startswith("__"):
+    if target.name.startswith("__"):
         return None
+    if not target.name.startswith("_"):
+        # a public name is looked through only when it is a plain module-level function called by name that no rule is anchored on:
+        # the public functions of today's tree are analysed as functions of their own (KEEP_PUBLIC); a public helper that a change
+        # introduces is part of its caller as far as the rules are concerned
+        if not isinstance(fn, ast.Name) or target.name in KEEP_PUBLIC or target.decorators():
+            return None
     if target.name in KEEP_CALLS:
         return None   # rules anchor on calls of these helpers by name
     if any(isinstance(x, ast.Starred) for x in c.args) or any(k.arg is None for k in c.keywords):
